@@ -3,6 +3,7 @@ CONSTANTS
   TrimAt = 5
   DefaultSock = 4
   AsIs = TRUE
+  Eager = FALSE
   DataLens = {1}
   MaxPackets = 1
   Skips = {0}
